@@ -816,8 +816,10 @@ def run_impossible(max_len):
                                     if pos: enc(ref, np.array(batch[:pos], dtype=np.int32), famg, mus[:pos], sds[:pos])
                                 else:
                                     if kk - pos - 1: enc(ref, np.array(batch[pos + 1:], dtype=np.int32), famg, mus[pos + 1:kk], sds[pos + 1:kk])
-                                if state(c) != state(ref):
-                                    fail(f"Python front end | {cname} | a refused batch with per-symbol parameters leaves something other than the symbols coded before the refusal", f"{batch}")
+                                # (what the property demands: earlier content intact, coder usable; whether the part of the batch
+                                # that was coded before the refusal stays on the coder or the whole batch is rolled back is not specified)
+                                if state(c) != state(ref) and state(c) != state(make()):
+                                    fail(f"Python front end | {cname} | a refused batch with per-symbol parameters leaves neither the symbols coded before the refusal nor the coder as it was", f"{batch}")
                             except BaseException as e:
                                 fail(f"Python front end | {cname} | batch with per-symbol parameters and an impossible symbol: undocumented failure", f"{batch}: {type(e).__name__}: {str(e)[:100]}")
                 for msg in small_messages(sup[:2], min(max_len, 3)):
@@ -836,8 +838,8 @@ def run_impossible(max_len):
                                 pass
                             if len(msg[pos:]):
                                 enc(ref, np.array(msg[pos:], dtype=np.int32), model)
-                            if state(c) != state(ref):
-                                fail("Python front end | ChainCoder | a refused batch leaves something other than the symbols coded before the refusal", f"{mname}: batch {batch}")
+                            if state(c) != state(ref) and state(c) != state(make()):
+                                fail("Python front end | ChainCoder | a refused batch leaves neither the symbols coded before the refusal nor the coder as it was", f"{mname}: batch {batch}")
                         except BaseException as e:
                             fail("Python front end | ChainCoder | batch with an impossible symbol: undocumented failure", f"{mname}: {batch}: {type(e).__name__}: {str(e)[:100]}")
                 # batches with an impossible symbol: KeyError, and what is on the coder afterwards are the symbols that
@@ -861,9 +863,10 @@ def run_impossible(max_len):
                             if len(done):
                                 enc(ref, np.array(done, dtype=np.int32), model)
                             same = state(c) == state(ref)
-                            got = dec(c, model, len(done)) if len(done) else []
-                            if got != done or not same:
-                                fail(f"Python front end | {cname} | a refused batch leaves something other than the symbols coded before the refusal", f"{mname}: batch {batch}: decodes {got}, expected {done}")
+                            rolled_back = state(c) == state(make())
+                            got = dec(c, model, len(done)) if len(done) and not rolled_back else ([] if rolled_back else [])
+                            if not (rolled_back or (same and got == done)):
+                                fail(f"Python front end | {cname} | a refused batch leaves neither the symbols coded before the refusal nor the coder as it was", f"{mname}: batch {batch}: decodes {got}, expected {done}")
                         except BaseException as e:
                             fail(f"Python front end | {cname} | batch with an impossible symbol: undocumented failure", f"{mname}: {batch}: {type(e).__name__}: {str(e)[:100]}")
     return n, failures, counters
@@ -890,6 +893,7 @@ def run_sizes(max_len):
                     # inspect one twin between the symbols
                     a.get_compressed(); a.num_words(); a.num_bits(); a.num_valid_bits(); a.is_empty(); a.pos(); a.clone()
                     r.get_compressed(); r.num_words(); r.num_bits(); r.is_empty(); r.pos(); r.clone(); r.get_decoder()
+                    a, r = a.clone(), r.clone()     # (go on with the clones: a clone is the coder)
                 for name, c, twin in (("AnsCoder", a, a2), ("RangeEncoder", r, r2)):
                     w = c.get_compressed()
                     if not np.array_equal(w, twin.get_compressed()):
@@ -1232,6 +1236,10 @@ def run_range_histories(depth):
     encoder and one symbol at a time"""
     ms, fams, params = history_models()
     keys = list(ms)
+    # a skewed table (24-bit and near-zero-bit symbols): words are emitted at irregular boundaries and the encoder gets
+    # into the situation in which finished words are held back for a carry; every node below is reached through clone()
+    skew_t = [1e-7, 1.0 - 2e-7, 1e-7]
+    ms[("s", 0)] = (M.Categorical(np.array(skew_t), perfect=False), "c", skew_t)
     failures = []
     counters = {"py_range_history_nodes": 0, "py_range_history_decodes": 0}
     def fail(what, detail):
@@ -1247,6 +1255,8 @@ def run_range_histories(depth):
         steps.append((f"encode [2] with per-symbol parameters of family {f} (one row)", "par", [2], [(f, 1)]))
         steps.append((f"encode [] with per-symbol parameters of family {f} (no rows)", "par", [], []))
     steps.append(("encode [] iid", "iid", [], [keys[0]]))
+    for s_ in (0, 1, 2):
+        steps.append((f"encode {s_} with the skewed table", "one", [s_], [("s", 0)]))
     def check(enc, segs, hist):
         msg = [(s_, k) for (_, syms, ks) in segs for s_, k in zip(syms, ks)]
         for dname, dec in (("get_decoder()", enc.get_decoder()), ("RangeDecoder(get_compressed())", RDEC(enc.get_compressed()))):
@@ -1746,6 +1756,23 @@ def run_misuse(level):
                 fail("Python front end | AnsCoder.get_compressed(unseal=True) | undocumented failure on an unsealed coder", f"{[hex(x) for x in init]}: {type(e).__name__}")
             if [int(x) for x in c.get_compressed()] != before:
                 fail("Python front end | AnsCoder.get_compressed(unseal=True) | a refused export changes the coder", f"{[hex(x) for x in init]}")
+        # unsealing chain-coder data that was never sealed (last word neither 0 nor 1): refused, never a silently shortened result
+        for w in word_strings(2, 3, [2, 0x12345678, 0xffffffff]):
+            n += 1; counters["py_misuse_calls"] += 1
+            try:
+                c = CHAIN(w, False, False)
+            except BaseException:
+                continue
+            before = [[int(x) for x in t] for t in c.get_remainders()]
+            try:
+                d1, d2 = c.get_data(unseal=True)
+                fail("Python front end | ChainCoder.get_data(unseal=True) | data that was never sealed is 'unsealed' (a word is dropped) instead of refused", f"words {[hex(int(x)) for x in w]} -> {[hex(int(x)) for x in np.concatenate([d1, d2])]}")
+            except AssertionError:
+                counters["py_misuse_refused"] += 1
+            except BaseException as e:
+                fail("Python front end | ChainCoder.get_data(unseal=True) | undocumented failure", f"{type(e).__name__}: {str(e)[:80]}")
+            if [[int(x) for x in t] for t in c.get_remainders()] != before:
+                fail("Python front end | ChainCoder.get_data(unseal=True) | a refused export changes the coder", f"words {[hex(int(x)) for x in w]}")
         # a chain coder that holds a fractional number of words cannot be exported as data: refused, coder unchanged
         c = CHAIN(np.concatenate([words, words]), False, True)
         c.decode(cat)
